@@ -282,6 +282,20 @@ func (h *orderHarness) Gen(r *Rand, tier string, clean bool) any {
 			c.Graphs[gi].Ts = keep
 		}
 	}
+	if r.Chance(0.03) {
+		// a wide table (343 rows) sorted on three columns
+		var ts []TSpec
+		for len(ts) < 7 {
+			ts = dedupSpecs(append(ts, TSpec{r.Intn(V.NodesClean), r.Intn(V.PredsClean), []int{6, 7, 8, 9, 10, 11, 12, 13}[r.Intn(8)]}))
+		}
+		c.Graphs = []GraphData{{Name: "?g0", Ts: ts}}
+		var cls []QClause
+		for i := 0; i < 3; i++ {
+			cls = append(cls, QClause{S: Tm{K: "b", B: fmt.Sprintf("?s%d", i)}, P: Tm{K: "b", B: fmt.Sprintf("?p%d", i)}, O: Tm{K: "b", B: fmt.Sprintf("?o%d", i)}})
+		}
+		c.Q = &Query{From: []string{"?g0"}, Where: cls, Proj: []Proj{{B: "?o0"}, {B: "?s1"}, {B: "?o2"}}}
+		c.Order = []Order{{B: "?o0", Desc: r.Bool()}, {B: "?s1"}, {B: "?o2", Desc: r.Bool()}}
+	}
 	c.Limits = []int{0, 1, 2, 3, 5, 50}
 	c.Bad = []string{`"-1"^^type:int64`, `"1.5"^^type:float64`, `"2"^^type:text`, `"true"^^type:bool`}
 	return c
@@ -600,6 +614,22 @@ func (h *invarHarness) Gen(r *Rand, tier string, clean bool) any {
 		}
 		c.Q = &Query{From: []string{"?g0"}, Where: []QClause{{S: Tm{K: "b", B: "?s"}, P: Tm{K: "pa", ID: "p", B: "?t"}, O: Tm{K: "b", B: "?o"}}, second},
 			Proj: []Proj{{B: "?s"}, {B: "?t"}, {B: "?s2"}, {B: "?o2"}}}
+	}
+	if r.Chance(0.03) {
+		// a wide intermediate table: three clauses that share nothing over 7 triples give 343 rows (code paths that only
+		// start at a few hundred rows - parallel sorts, batching - are otherwise never entered)
+		for len(c.U) < 7 {
+			c.U = dedupSpecs(append(c.U, TSpec{r.Intn(V.NodesClean), r.Intn(V.PredsClean), r.Intn(V.ObjsClean)}))
+		}
+		c.U = c.U[:7]
+		var cls []QClause
+		var prj []Proj
+		for i := 0; i < 3; i++ {
+			cls = append(cls, QClause{S: Tm{K: "b", B: fmt.Sprintf("?s%d", i)}, P: Tm{K: "b", B: fmt.Sprintf("?p%d", i)}, O: Tm{K: "b", B: fmt.Sprintf("?o%d", i)}})
+			prj = append(prj, Proj{B: fmt.Sprintf("?s%d", i)}, Proj{B: fmt.Sprintf("?p%d", i)}, Proj{B: fmt.Sprintf("?o%d", i)})
+		}
+		c.Q = &Query{From: []string{"?g0"}, Where: cls, Proj: prj}
+		c.Reps = 2
 	}
 	if r.Chance(0.4) {
 		c.Order = nil
